@@ -19,12 +19,20 @@ Fixpoint later_ne {A} (view : A -> val) (l : list A) : Prop :=
 
 Definition is_leaf (o : obj) : Prop := match o with OLeaf _ => True | _ => False end.
 
-(* sets/frozensets hold pairwise-unequal leaves only ("flat sets") *)
+(* a set member that is copied to the identical term: a leaf, or a tuple of leaves *)
+Definition flat_member (o : obj) : Prop :=
+  match o with
+  | OLeaf _ => True
+  | ONode _ KTuple its => Forall (fun kv => is_leaf (snd kv)) its
+  | _ => False
+  end.
+
+(* sets/frozensets hold pairwise-unequal leaves and tuples of leaves ("flat sets") *)
 Fixpoint no_sets (o : obj) : Prop :=
   match o with
   | ONode _ k items =>
       (is_set k = true ->
-         Forall (fun kv => is_leaf (snd kv)) items
+         Forall (fun kv => flat_member (snd kv)) items
          /\ later_ne (fun x => vnorm (erase x)) (map snd items))
       /\ (fix all (l : list (key * obj)) : Prop :=
             match l with [] => True | kv :: r => no_sets (snd kv) /\ all r end) items
@@ -160,7 +168,7 @@ Section Copy.
     forall rt p ky m lg v m' lg',
       Inv m -> (forall i, In i (ids o) -> t_get m i = None) ->
       srbS rt p ky o m lg = (v, m', lg') ->
-      Inv m' /\ oref_of v = oref_of o /\ copied m' o.
+      Inv m' /\ oref_of v = oref_of o /\ copied m' o /\ (flat_member o -> v = o).
 
   Lemma children_copy : forall l, Forall (fun kv => copy_ok (snd kv)) l ->
     NoDup (flat_map (fun kv => ids (snd kv)) l) ->
@@ -169,28 +177,33 @@ Section Copy.
       Inv m -> (forall i, In i (flat_map (fun kv => ids (snd kv)) l) -> t_get m i = None) ->
       chS cp l acc m lg = (acc', m', lg') ->
       Inv m' /\ shal acc' = shal acc ++ shal l
-      /\ forall kv, In kv l -> copied m' (snd kv).
+      /\ (forall kv, In kv l -> copied m' (snd kv))
+      /\ (Forall (fun kv => flat_member (snd kv)) l -> acc' = acc ++ l).
   Proof.
     induction 1 as [|[ck c] r Hc Hr IH]; intros Hnd Hw Hs cp acc m lg acc' m' lg' Hi Hm E.
     - cbn in E. inversion E; subst. split; [assumption|]. split; [cbn; rewrite app_nil_r; reflexivity|].
-      intros kv [].
+      split; [intros kv []|]. intros _. symmetry. apply app_nil_r.
     - cbn [srb_children] in E.
       destruct (srbS false cp ck c m lg) as [[c' m1] lg1] eqn:E1.
       cbn [do_visit] in E. cbn [flat_map snd] in Hnd, Hm. cbn [snd] in Hc.
       inversion Hw; subst. inversion Hs; subst. cbn [snd] in *.
-      destruct (Hc (NoDup_app_l _ _ Hnd) H1 H3 false cp ck m lg c' m1 lg1 Hi) as [Hi1 [Hv Hcp]].
+      destruct (Hc (NoDup_app_l _ _ Hnd) H1 H3 false cp ck m lg c' m1 lg1 Hi) as [Hi1 [Hv [Hcp Hfl]]].
       { intros i Hin. apply Hm. rewrite in_app_iff. tauto. }
       { exact E1. }
       destruct (IH (NoDup_app_r _ _ Hnd) H2 H4 cp (acc ++ opt_list (Some (ck, c'))) m1 lg1 acc' m' lg' Hi1)
-        as [Hi' [Ha Hcr]].
+        as [Hi' [Ha [Hcr Hfr]]].
       { intros i Hin. rewrite (srb_dom spec_blank None defs c _ _ _ _ _ _ _ _ E1 i).
         - apply Hm. rewrite in_app_iff. tauto.
         - intro Hic. exact (NoDup_app_disj _ _ i Hnd Hic Hin). }
       { exact E. }
-      split; [assumption|]. split.
+      split; [assumption|]. split; [|split].
       + rewrite Ha. unfold shal. rewrite map_app. cbn [opt_list map fst snd]. rewrite Hv.
         rewrite <- app_assoc. reflexivity.
-      + intros kv [<-|Hin]; [|apply Hcr; assumption]. cbn [snd].
+      + shelve.
+      + intro Hall. inversion Hall; subst. cbn [snd] in *. rewrite (Hfr H6). rewrite (Hfl H5).
+        cbn [opt_list]. rewrite <- app_assoc. reflexivity.
+      Unshelve.
+        intros kv [<-|Hin]; [|apply Hcr; assumption]. cbn [snd].
         intros id k items Hd. destruct (Hcp id k items Hd) as [items' [Hg Hsh]].
         exists items'. split; [|assumption]. rewrite <- Hg.
         apply (children_dom spec_blank None defs r
@@ -203,7 +216,8 @@ Section Copy.
   Proof.
     induction o as [n|id k items IH|id k|k|id k|w] using obj_ind2; unfold copy_ok;
       intros Hnd Hw Hs rt p ky m lg v m' lg' Hi Hm E.
-    - cbn in E. inversion E; subst. split; [assumption|]. split; [reflexivity|]. intros ? ? ? [].
+    - cbn in E. inversion E; subst. split; [assumption|]. split; [reflexivity|].
+      split; [intros ? ? ? []|reflexivity].
     - rewrite srb_node in E. rewrite (Hm id (or_introl eq_refl)) in E. cbv zeta in E.
       set (cp := if rt then p else p ++ [ky]) in *.
       destruct (chS cp items [] _ _) as [[items' m1] lg1] eqn:EC.
@@ -219,18 +233,18 @@ Section Copy.
         destruct (Nat.eqb i id) eqn:Ei; [apply Nat.eqb_eq in Ei; subst; contradiction|].
         apply Hm. right. exact Hin. }
       destruct (children_copy items IH Hnd' (wf_items _ _ _ Hw) (no_sets_items _ _ _ Hs)
-                  cp [] _ _ _ _ _ Hi0 Hm0 EC) as [Hi1 [Hsh Hcp]].
-      cbn [shal map app] in Hsh.
+                  cp [] _ _ _ _ _ Hi0 Hm0 EC) as [Hi1 [Hsh [Hcp Hflat]]].
+      cbn [shal map app] in Hsh. cbn [app] in Hflat.
       assert (Hb : same_items k (build erase k items') items).
       { unfold same_items. destruct (is_set k) eqn:Es.
         - destruct Hs as [Hsk _]. destruct (Hsk Es) as [Hlf Hne].
-          assert (Hv : map snd items' = map snd items) by (apply shal_leaves; assumption).
-          assert (Hbv : map snd (build erase k items') = set_of (fun x => vnorm (erase x)) (map snd items')).
+          rewrite (Hflat Hlf).
+          assert (Hbv : map snd (build erase k items) = set_of (fun x => vnorm (erase x)) (map snd items)).
           { destruct k; cbn in Es; try discriminate; cbn [build]; unfold reindex; apply reindex_vals. }
-          rewrite Hbv, Hv. apply set_of_perm. exact Hne.
+          rewrite Hbv. apply set_of_perm. exact Hne.
         - destruct (shal_keys _ _ Hsh) as [Hk Hl]. destruct Hw as [Hwk _].
           rewrite build_wf; [exact Hsh|exact Es|]. rewrite Hk, Hl. exact Hwk. }
-      split; [|split].
+      split; [|split; [|split]].
       + intros j v Hg. rewrite t_get_set in Hg. destruct (Nat.eqb j id) eqn:Ej.
         * apply Nat.eqb_eq in Ej. subst. inversion Hg. reflexivity.
         * apply Hi1. assumption.
@@ -244,12 +258,19 @@ Section Copy.
           destruct (Nat.eqb id0 id) eqn:Ej; [|assumption].
           apply Nat.eqb_eq in Ej. subst. exfalso. apply Hnotin.
           apply in_flat_map. exists kv. split; [assumption|]. exact (collect_ids _ _ _ Hd).
+      + (* a tuple of leaves is copied to the identical term *)
+        intro Hf. cbn [flat_member] in Hf. destruct k; try contradiction.
+        assert (Hall : Forall (fun kv => flat_member (snd kv)) items).
+        { eapply Forall_impl; [|exact Hf]. intros [kk vv] Hl. cbn [snd] in *.
+          destruct vv; cbn [is_leaf] in Hl; try contradiction. exact I. }
+        rewrite (Hflat Hall). destruct Hw as [Hwk _].
+        rewrite build_wf; [reflexivity|reflexivity|exact Hwk].
     - cbn [srb] in E. destruct (t_get m id) as [v0|] eqn:G; inversion E; subst.
-      + split; [assumption|]. split; [exact (Hi _ _ G)|]. intros ? ? ? [].
-      + split; [assumption|]. split; [reflexivity|]. intros ? ? ? [].
-    - cbn in E. inversion E; subst. split; [assumption|]. split; [reflexivity|]. intros ? ? ? [].
-    - cbn in E. inversion E; subst. split; [assumption|]. split; [reflexivity|]. intros ? ? ? [].
-    - cbn in E. inversion E; subst. split; [assumption|]. split; [reflexivity|]. intros ? ? ? [].
+      + split; [assumption|]. split; [exact (Hi _ _ G)|]. split; [intros ? ? ? []|intros []].
+      + split; [assumption|]. split; [reflexivity|]. split; [intros ? ? ? []|intros []].
+    - cbn in E. inversion E; subst. split; [assumption|]. split; [reflexivity|]. split; [intros ? ? ? []|intros []].
+    - cbn in E. inversion E; subst. split; [assumption|]. split; [reflexivity|]. split; [intros ? ? ? []|intros []].
+    - cbn in E. inversion E; subst. split; [assumption|]. split; [reflexivity|]. split; [intros ? ? ? []|intros []].
   Qed.
 End Copy.
 
@@ -268,7 +289,7 @@ Proof.
   destruct (srb spec_blank None (collect_defs (ONode id k items)) true [] KNone (ONode id k items) [] [])
     as [[v m] lg] eqn:E.
   exists v, m, lg. split; [reflexivity|].
-  destruct (srb_copy (collect_defs (ONode id k items)) (ONode id k items) Hnd Hw Hs true [] KNone [] [] v m lg) as [Hi [Hv Hc]].
+  destruct (srb_copy (collect_defs (ONode id k items)) (ONode id k items) Hnd Hw Hs true [] KNone [] [] v m lg) as [Hi [Hv [Hc _]]].
   - intros j v0 Hg. discriminate.
   - reflexivity.
   - exact E.
